@@ -348,6 +348,9 @@ class Interp(BuiltinsMixin, StmtMixin, DictMixin):
 
     def elem_val(self, v, e):
         et = v.elem
+        if isinstance(et, str) and et.startswith("enum:") and \
+                et[5:] in self.uni.enums:
+            return VEnum(self.uni.enums[et[5:]], e)
         if base_tag(et) != "ref":
             return wrap(e)
         rec = self.uni.records.get(et)
